@@ -318,6 +318,35 @@ fn random_defs(prop: &str, rng: &mut Rng, thorough: bool, out: &mut Sink, slot: 
         out.add("pieces_long", (npieces / 10) as u64);
         piece_lines(&tk, op_for(kind), &pieces, &mut lines, out);
         out.group(lines);
+        // C05: "each word" — several words in one call (failing and encodable ones next to each other), split at
+        // spaces: what one word yields does not depend on what the word before it yielded
+        if prop == "C05" && kind == Kind::WordPiece && d % 3 == 0 {
+            let mut def2 = tk.def.clone();
+            def2.config.split = vec![Split::Pattern { pattern: ' '.into(), behavior: SplitBehavior::Remove }];
+            let mut lines2 = Vec::new();
+            let tk2 = load(*slot, "generated-words", def2, &mut lines2);
+            *slot += 1;
+            if tk2.tok.is_some() {
+                let short: Vec<&String> = pieces.iter().filter(|p| p.len() <= 12 && !p.contains(' ')).collect();
+                for _ in 0..12 {
+                    if short.is_empty() {
+                        break;
+                    }
+                    let n = rng.range(2, 4);
+                    let mut words: Vec<String> = (0..n).map(|_| (*rng.pick(&short)).clone()).collect();
+                    if rng.chance(1, 2) {
+                        // a word that certainly fails, twice in a row
+                        words.insert(rng.below(words.len() + 1), "qq".to_string());
+                        words.insert(rng.below(words.len() + 1), "q".to_string());
+                    }
+                    if let Some(l) = enc_line("ENC2", &tk2, &words.join(" "), false) {
+                        lines2.push(l);
+                    }
+                    out.count("word_sequences");
+                }
+            }
+            out.group(lines2);
+        }
     }
 }
 
